@@ -1404,6 +1404,43 @@ func scenarioVoteOnlyStateChange(r *vh.Rand) (string, []string) {
 	return g.c.Header(), g.ops
 }
 
+// scenario 25 (CheckQuorum): two full replicas and a witness under a stable leader whose
+// heartbeats the witness keeps receiving. The schedule ends there; the fault-free phase with
+// the leader down then needs the witness's vote, which it gives only once its own election
+// timer ran past the lease of the leader it last heard from.
+func scenarioWitnessLeaseAfterLeaderCrash(r *vh.Rand) (string, []string) {
+	g := newScenarioGen(r, 2, uint64(4+r.Intn(4)), true, r.Bool())
+	if !g.elect(1, nil) {
+		return g.c.Header(), g.ops
+	}
+	g.nextKey++
+	g.cc(1, uint64(pb.AddWitness), 3)
+	g.update(1)
+	g.settle(nil)
+	for _, k := range g.liveIDs() {
+		g.update(k)
+		g.apply(k, 100)
+	}
+	g.settle(nil)
+	g.do("START 3 W . -")
+	for i := 0; i < 4+r.Intn(4) && !g.Stopped; i++ {
+		if i == 2 {
+			g.propose(1)
+		}
+		for _, k := range g.liveIDs() {
+			g.do(fmt.Sprintf("T %d", k))
+			g.update(k)
+			g.settle(nil)
+		}
+		for _, k := range g.liveIDs() {
+			g.update(k)
+			g.apply(k, 100)
+		}
+	}
+	g.settle(nil)
+	return g.c.Header(), g.ops
+}
+
 var scenarios = []func(r *vh.Rand) (string, []string){
 	scenarioTransferWithUnappliedChange,
 	scenarioVoteRace, scenarioTransferRemove, scenarioDeposedLeaderRead, scenarioDelayedConfirmation,
@@ -1414,4 +1451,5 @@ var scenarios = []func(r *vh.Rand) (string, []string){
 	scenarioOnlyFullMemberRead, scenarioMatchingSnapshotBehindLog, scenarioSnapshotWithoutWitness,
 	scenarioQueuedReplicateAndTruncation, scenarioCommitAfterShrink,
 	scenarioRemovalWhileReadPending, scenarioForwardedReadToNewLeader, scenarioVoteOnlyStateChange,
+	scenarioWitnessLeaseAfterLeaderCrash,
 }
